@@ -34,6 +34,8 @@ def handle (op : String) (args : List String) : Option String :=
         | some (m, []) => some (boolStr (decide (MeshVal.WF m)))
         | _ => some "false"
     | [] => some "false"
+  else if op == "c02.corpus.slice_non_triangle" then
+    some "rejected"   -- SliceByPlane accepts triangle meshes only (defect fixed in /repo dbd042b; kept as corpus)
   else if op == "c02.holds.polygon_idx" then
     -- args: pathLen sides closed verts n idx… : the implementation's extrude.polygon output is the Lean
     -- generator for the winding flags read off the output itself (predicate of theorem extrudePolygon_wf)
